@@ -215,7 +215,13 @@ Section BE.
   Definition fn1_k (k : fn1) (a : fnarg) : tfun :=
     match k with FLength => FnLength a | FCount => FnCount a | FValue => FnValue a end.
   Definition fn2_k (k : fn2) (a b : fnarg) : tfun :=
-    match k with FMatch => FnMatch a b | FSearch => FnSearch a b end.
+    match k with
+    | FMatch => FnMatch a b
+    | FSearch => FnSearch a b
+    | _ => FnCustom (fn2_name k) (ACons a (ACons b ANil))
+    end.
+  Definition fn2_pat (k : fn2) (b : fnarg) : Prop :=
+    match k with FMatch | FSearch => patok b | _ => True end.
   Fixpoint fn_ast (f : xfn) : tfun :=
     match f with
     | XFn1 _ k a => fn1_k k (arg_ast a)
@@ -234,7 +240,7 @@ Section BE.
   Fixpoint fgood (f : xfn) : Prop :=
     match f with
     | XFn1 _ k a => arggood a /\ fn1_typed k (arg_ast a)
-    | XFn2 _ k a b => arggood a /\ arggood b /\ is_value_type (arg_ast a) = true /\ is_value_type (arg_ast b) = true /\ patok (arg_ast b)
+    | XFn2 _ k a b => arggood a /\ arggood b /\ is_value_type (arg_ast a) = true /\ is_value_type (arg_ast b) = true /\ fn2_pat k (arg_ast b)
     end
   with arggood (a : xarg) : Prop :=
     match a with
@@ -276,7 +282,7 @@ Section BE.
   Proof. destruct k; cbn [fn1_typed fn1_name fn1_k]; intros H; unfold tfun_try_new; vm_compute str_eqb; cbv iota; rewrite H; reflexivity. Qed.
   Lemma try_new_fn2 k a b : is_value_type a = true -> is_value_type b = true ->
     tfun_try_new (fn2_name k) [a; b] = Some (fn2_k k a b).
-  Proof. destruct k; cbn [fn2_name fn2_k]; intros Ha Hb; unfold tfun_try_new; vm_compute str_eqb; cbv iota; rewrite Ha, Hb; reflexivity. Qed.
+  Proof. destruct k; cbn [fn2_name fn2_k]; intros Ha Hb; unfold tfun_try_new; vm_compute str_eqb; cbv iota; rewrite ?Ha, ?Hb; reflexivity. Qed.
 
   Lemma bfn_all : (forall f, Bf f) /\ (forall a, Ba a).
   Proof.
